@@ -182,6 +182,21 @@ func (builder *RuleBuilder) BuildRuleFromResource(name, version string, resource
 		}
 	}
 
+	if errReporter.HasError() {
+		// a rule that the parser could not deliver completely must not stay in the knowledge base.
+		for name, ruleEntry := range grl.RuleEntries {
+			if knowledgeBase.RuleEntries[name] == ruleEntry && !isComplete(ruleEntry) {
+				delete(knowledgeBase.RuleEntries, name)
+			}
+		}
+		// nodes of rules that were parsed but not accepted must not stay behind in the working memory.
+		reachable := &ast.Catalog{}
+		for _, ruleEntry := range knowledgeBase.RuleEntries {
+			ruleEntry.MakeCatalog(reachable)
+		}
+		knowledgeBase.WorkingMemory.RemoveUnreferenced(reachable.Data)
+	}
+
 	knowledgeBase.WorkingMemory.IndexVariables()
 
 	// Get the loading duration.
@@ -199,4 +214,17 @@ func (builder *RuleBuilder) BuildRuleFromResource(name, version string, resource
 	BuilderLog.Debugf("Loading rule resource : %s success. Time taken %d ms", resource.String(), dur.Nanoseconds()/1e6)
 
 	return nil
+}
+
+// isComplete checks that a rule entry has all its parts. After a syntax error the parser may deliver a rule
+// without its when or then scope (or with holes in them); such an entry can neither be cloned nor stored.
+func isComplete(ruleEntry *ast.RuleEntry) (complete bool) {
+	defer func() {
+		if r := recover(); r != nil {
+			complete = false
+		}
+	}()
+	ruleEntry.GetSnapshot()
+
+	return true
 }
